@@ -254,6 +254,16 @@ def reshape_program(rng, tid, sym, kind, dtype="float64"):
                       "entry": rng.choice(["method", "symmray", "autoray"])})
         steps.append({"op": "reshape", "in": [f"r{n}"], "out": [f"b{n}"], "args": {"newshape": shape, "back": True}})
         steps.append(rel("blocks" if kind == "abelian" else "same", "C07.roundtrip", "x", f"b{n}"))
+    # the same round trips on numbers 2**-40 times smaller (scaling by a power of two is exact): content must not depend
+    # on the magnitude of the entries
+    tiny = [t for t in merge_drop_targets(rng, shape)][:2]
+    if tiny:
+        steps.append({"op": "scale_pow2", "in": ["x"], "out": ["xt"], "args": {"e": -40}})
+        for n, t in enumerate(tiny):
+            steps.append({"op": "reshape", "in": ["xt"], "out": [f"rt{n}"], "args": {"newshape": t}})
+            steps.append({"op": "reshape", "in": [f"rt{n}"], "out": [f"bt{n}"], "args": {"newshape": shape, "back": True}})
+            steps.append({"op": "scale_pow2", "in": [f"bt{n}"], "out": [f"bs{n}"], "args": {"e": 40}})
+            steps.append(rel("blocks" if kind == "abelian" else "same", "C07.roundtrip.tiny_numbers", "x", f"bs{n}"))
     # targets that only INSERT unit axes (also after a fuse, so that the same call unfuses and expands)
     if 1 not in shape:
         t = list(shape)
